@@ -39,3 +39,61 @@ Lemma json_tags_as_modelled :
   Platform_json_tags =
     [(b "architecture", false); (b "os", false); (b "os.version", true); (b "os.features", true); (b "variant", true)].
 Proof. repeat split; reflexivity. Qed.
+
+(* Every decision (if condition with its init statement, switch case) of the functions of pack.go that
+   Model/Pack.v mirrors, as source text in source order (gosrc2v kind "ifconds").  The model's branches
+   are these conditions: subject for v1.0, the two-step artifactType check of v1.1, comma-ok lookup of
+   the created key, ErrAlreadyExists swallowed at both pushes, len(Layers) == 0 and !emptyBlobExists for
+   the placeholder, nil layers made an empty array.  An edited condition breaks this lemma. *)
+Lemma decisions_as_modelled :
+  conds_PackManifest =
+    [b "case PackManifestVersion1_0";
+     b "case PackManifestVersion1_1";
+     b "default"] /\
+  conds_Pack =
+    [b "opts.PackImageManifest"] /\
+  conds_packArtifact =
+    [b "artifactType == """"";
+     b "err != nil"] /\
+  conds_packManifestV1_0 =
+    [b "opts.Subject != nil";
+     b "opts.ConfigDescriptor != nil";
+     b "err := validateMediaType(opts.ConfigDescriptor.MediaType); err != nil";
+     b "artifactType == """"";
+     b "err := validateMediaType(artifactType); err != nil";
+     b "err != nil";
+     b "err != nil";
+     b "opts.Layers == nil"] /\
+  conds_packManifestV1_1_RC2 =
+    [b "configMediaType == """"";
+     b "opts.ConfigDescriptor != nil";
+     b "err != nil";
+     b "err != nil";
+     b "layers == nil"] /\
+  conds_packManifestV1_1 =
+    [b "artifactType == """" && (opts.ConfigDescriptor == nil || opts.ConfigDescriptor.MediaType == ocispec.MediaTypeEmptyJSON)";
+     b "artifactType != """"";
+     b "err := validateMediaType(artifactType); err != nil";
+     b "opts.ConfigDescriptor != nil";
+     b "err := validateMediaType(opts.ConfigDescriptor.MediaType); err != nil";
+     b "err := pushIfNotExist(ctx, pusher, configDesc, configBytes); err != nil";
+     b "err != nil";
+     b "len(opts.Layers) == 0";
+     b "!emptyBlobExists";
+     b "err := pushIfNotExist(ctx, pusher, layerDesc, layerData); err != nil"] /\
+  conds_pushIfNotExist =
+    [b "ros, ok := pusher.(content.ReadOnlyStorage); ok";
+     b "err != nil";
+     b "exists";
+     b "err := pusher.Push(ctx, desc, bytes.NewReader(data)); err != nil && !errors.Is(err, errdef.ErrAlreadyExists)"] /\
+  conds_pushManifest =
+    [b "err != nil";
+     b "err := pusher.Push(ctx, manifestDesc, bytes.NewReader(manifestJSON)); err != nil && !errors.Is(err, errdef.ErrAlreadyExists)"] /\
+  conds_pushCustomEmptyConfig =
+    [b "err := pushIfNotExist(ctx, pusher, configDesc, configBytes); err != nil"] /\
+  conds_ensureAnnotationCreated =
+    [b "createdTime, ok := annotations[annotationCreatedKey]; ok";
+     b "err := validateRFC3339(createdTime); err != nil"] /\
+  conds_validateMediaType =
+    [b "!mediaTypeRegexp.MatchString(mediaType)"].
+Proof. repeat split; reflexivity. Qed.
